@@ -2,7 +2,9 @@
 C05 — property theorems about the model of `attribute.Set` (Model.lean), with the Spec predicates
 (Spec.lean) that the driver also evaluates on the real code's results.
 -/
-import Otel.C05.Lemmas
+import Otel.C05.LemmasSort
+import Otel.C05.LemmasEnc
+import Otel.C05.LemmasIter
 namespace Otel.C05
 open Otel Otel.C05.Spec
 
@@ -73,7 +75,7 @@ private theorem nswf_fields (kvs : List KV) (filter : Option (KV → Bool)) :
     | none =>
       have hr : newSetWithFiltered kvs none =
           ⟨canon kvs, [], (dedup (sortStable kvs)).1 ++ canon kvs⟩ := by
-        simp [newSetWithFiltered, h0, hcan]
+        simp [newSetWithFiltered, h0, hcan, goSortStable_eq_sortStable]
       rw [hr]
       refine ⟨?_, ?_, hperm', (dedup (sortStable kvs)).1, by simp⟩
       · simp [keepOf, filter_true']
@@ -89,14 +91,14 @@ private theorem nswf_fields (kvs : List KV) (filter : Option (KV → Bool)) :
       · have hr : newSetWithFiltered kvs (some keep) =
             ⟨(canon kvs).filter keep, (filteredToFront keep (canon kvs)).1,
               (dedup (sortStable kvs)).1 ++ ((filteredToFront keep (canon kvs)).1 ++ (canon kvs).filter keep)⟩ := by
-          simp [newSetWithFiltered, h0, hcan, hdl, hk]
+          simp [newSetWithFiltered, h0, hcan, hdl, hk, goSortStable_eq_sortStable]
         rw [hr]
         exact ⟨rfl, hd, hall, _, rfl⟩
       · have hnil : (filteredToFront keep (canon kvs)).1 = [] :=
           List.eq_nil_of_length_eq_zero (by omega)
         have hr : newSetWithFiltered kvs (some keep) =
             ⟨(canon kvs).filter keep, [], (dedup (sortStable kvs)).1 ++ (canon kvs).filter keep⟩ := by
-          simp [newSetWithFiltered, h0, hcan, hnil, hk]
+          simp [newSetWithFiltered, h0, hcan, hnil, hk, goSortStable_eq_sortStable]
         rw [hr]
         rw [hnil] at hd hall
         exact ⟨rfl, hd, by simpa using hall, (dedup (sortStable kvs)).1, by simp⟩
@@ -403,6 +405,315 @@ theorem encode_not_injective_witness :
   have h : escape [0x80] = escape [0xff] := by decide
   simp [encode, encodeLoop, encodeItem, h]
 
+
+/-! ### session 3: the sort as written in the Go library; `Distinct`; exact identity -/
+
+/-- **the stable sort is unique**: ANY result that is sorted by key and keeps, for every key, the
+elements with that key in their input order is the reference `sortStable` (and a permutation of
+the input). So modelling `slices.SortStableFunc` by "a stable sort" determines its result. -/
+theorem stable_sort_unique (l out : List KV) (hs : Sorted out)
+    (hst : ∀ k, out.filter (fun z => z.key == k) = l.filter (fun z => z.key == k)) :
+    out = sortStable l ∧ out.Perm l := by
+  have e : out = sortStable l :=
+    sorted_filter_unique hs (sortStable_sorted l) (fun k => by rw [sortStable_filter]; exact hst k)
+  exact ⟨e, e ▸ sortStable_perm l⟩
+
+/-- **`insertionSortCmpFunc`, swap by swap, is the stable sort**, and it is all that
+`slices.SortStableFunc` does for at most 20 elements. -/
+theorem insertionSort_is_stable_sort (seg : List KV) :
+    goInsertionSort seg = sortStable seg ∧ (seg.length ≤ 20 → goSortStable seg = goInsertionSort seg) :=
+  ⟨goInsertionSort_eq_sortStable seg, goSortStable_small seg⟩
+
+/-- the contract used for `symMergeCmpFunc` (stable merge of two sorted runs) yields the stable sort of the two runs -/
+theorem symMerge_contract_is_stable_merge (a b : List KV) (ha : Sorted a) (hb : Sorted b) :
+    mergeRuns a b = sortStable (a ++ b) := by
+  obtain ⟨h1, h2⟩ := mergeRuns_spec a b ha hb
+  exact (stable_sort_unique (a ++ b) _ h1 h2).1
+
+/-- **`slices.SortStableFunc` as structured in the Go library** (insertion-sorted blocks of 20, rounds of
+pairwise merges of adjacent runs) **is the stable sort** for every length: sorted by key, a
+permutation, equal keys in input order. -/
+theorem sortStableFunc_is_stable_sort (l : List KV) :
+    goSortStable l = sortStable l ∧ Sorted (goSortStable l) ∧ (goSortStable l).Perm l ∧
+    ∀ k, (goSortStable l).filter (fun z => z.key == k) = l.filter (fun z => z.key == k) := by
+  rw [goSortStable_eq_sortStable]
+  exact ⟨rfl, sortStable_sorted l, sortStable_perm l, sortStable_filter l⟩
+
+private theorem filterMap_range_take (l : List KV) (n : Nat) :
+    (List.range n).filterMap (fun i => l[i]?) = l.take n := by
+  induction n with
+  | zero => simp
+  | succ n ih =>
+    rw [List.range_succ, List.filterMap_append, ih, List.take_add_one]
+    cases h : l[n]? <;> simp [h]
+
+/-- **`computeDistinct`**: both code paths (the `switch` over lengths 1…10 with its array conversions,
+and the reflective construction for 0 and for more than 10 elements) build the array value of
+exactly the given elements whose dynamic type carries exactly their number. -/
+theorem computeDistinct_eq (kvs : List KV) : computeDistinct kvs = some ⟨kvs.length, kvs⟩ := by
+  have hr : computeDistinctReflect kvs = ⟨kvs.length, kvs⟩ := by
+    simp [computeDistinctReflect, filterMap_range_take]
+  have hfix : ∀ a, computeDistinctFixed kvs = some a → a = ⟨kvs.length, kvs⟩ := by
+    intro a ha
+    unfold computeDistinctFixed at ha
+    split at ha
+    all_goals first
+      | (rename_i h; cases ha; simp only [arrOf, ← h, List.take_length])
+      | cases ha
+  unfold computeDistinct
+  cases hf : computeDistinctFixed kvs with
+  | some a => simp [hfix a hf]
+  | none => simp [hr]
+
+private theorem isZero_zero : isZero 0 = true := by decide
+
+private theorem ieeeEq_iff (a b : UInt64) :
+    ieeeEq a b = true ↔ (isNaN a = false ∧ isNaN b = false ∧ normF a = normF b) := by
+  unfold ieeeEq normF
+  by_cases hza : isZero a = true <;> by_cases hzb : isZero b = true
+  · simp [hza, hzb]
+  · have hne : ¬ a = b := fun e => hzb (e ▸ hza)
+    have hb0 : ¬ 0 = b := fun e => hzb (e ▸ isZero_zero)
+    simp [hza, hzb, hne, hb0]
+  · have hne : ¬ a = b := fun e => hza (e ▸ hzb)
+    have ha0 : ¬ a = 0 := fun e => hza (e ▸ isZero_zero)
+    simp [hza, hzb, hne, ha0]
+  · simp [hza, hzb, and_assoc]
+
+private theorem listRel_ieeeEq_iff (l m : List UInt64) :
+    listRel ieeeEq l m = true ↔ (l.any isNaN = false ∧ m.any isNaN = false ∧ l.map normF = m.map normF) := by
+  induction l generalizing m with
+  | nil => cases m <;> simp [listRel]
+  | cons x xs ih =>
+    cases m with
+    | nil => simp [listRel]
+    | cons y ys =>
+      simp only [listRel, Bool.and_eq_true, ieeeEq_iff, ih, List.any_cons, Bool.or_eq_false_iff, List.map_cons,
+        List.cons.injEq]
+      constructor
+      · rintro ⟨⟨h1, h2, h3⟩, h4, h5, h6⟩; exact ⟨⟨h1, h4⟩, ⟨h2, h5⟩, h3, h6⟩
+      · rintro ⟨⟨h1, h4⟩, ⟨h2, h5⟩, h3, h6⟩; exact ⟨⟨h1, h2, h3⟩, h4, h5, h6⟩
+
+private theorem goEq_iff (v w : Value) :
+    goEq v w = true ↔ (valHasNaN v = false ∧ valHasNaN w = false ∧ normVal v = normVal w) := by
+  cases v <;> cases w <;> simp [goEq, valHasNaN, normVal, listRel_ieeeEq_iff]
+
+/-- **Equal / equal `Equivalent()` map keys, exactly**: two attribute lists are `==` as `Distinct` arrays
+iff neither holds a NaN inside a FLOAT64SLICE (known finding F9 — the only exclusion) and they are
+the same list of typed key-values up to the sign of zeros inside FLOAT64SLICE values (`normKV`:
+the representation's identity). For Sets (sorted, one entry per key) "same list" is "same mapping". -/
+theorem equal_iff_norm_eq (a b : List KV) :
+    equal a b = true ↔ (F9_applies a = false ∧ F9_applies b = false ∧ a.map normKV = b.map normKV) := by
+  unfold equal F9_applies
+  induction a generalizing b with
+  | nil => cases b <;> simp [relList]
+  | cons x xs ih =>
+    cases b with
+    | nil => simp [relList]
+    | cons y ys =>
+      simp only [relList, Bool.and_eq_true, beq_iff_eq, goEq_iff, ih, List.any_cons, Bool.or_eq_false_iff,
+        List.map_cons, List.cons.injEq, normKV, KV.mk.injEq]
+      constructor
+      · rintro ⟨⟨hk, h1, h2, h3⟩, h4, h5, h6⟩; exact ⟨⟨h1, h4⟩, ⟨h2, h5⟩, ⟨hk, h3⟩, h6⟩
+      · rintro ⟨⟨h1, h4⟩, ⟨h2, h5⟩, ⟨hk, h3⟩, h6⟩; exact ⟨⟨hk, h1, h2, h3⟩, h4, h5, h6⟩
+
+private theorem relList_length {r : Value → Value → Bool} {a b : List KV} (h : relList r a b = true) :
+    a.length = b.length := by
+  induction a generalizing b with
+  | nil => cases b <;> simp_all [relList]
+  | cons x xs ih =>
+    cases b with
+    | nil => simp [relList] at h
+    | cons y ys =>
+      simp only [relList, Bool.and_eq_true] at h
+      simp [ih h.2]
+
+/-- **`Set.Equals` / `Equivalent()` through `computeDistinct`**: comparing the `Distinct` values of two
+constructed Sets (interface `==`: dynamic array type, then elements) is `equal` on their contents,
+on either side of the 10/11 switch between the fixed-size and the reflective construction. -/
+theorem set_equals_is_equal (a b : List KV) :
+    setEquals (some (computeDistinct a)) (some (computeDistinct b)) = equal a b := by
+  rw [computeDistinct_eq, computeDistinct_eq]
+  simp only [setEquals, setEquivalent, distinctEq, equal]
+  cases h : relList goEq a b with
+  | false => simp
+  | true => simp [relList_length h]
+
+/-- **accessors agree with the contents**: `Len`, `Get`, `ToSlice` of a constructed Set -/
+theorem set_accessors (kvs : List KV) :
+    setLen (some (computeDistinct kvs)) = kvs.length ∧
+    setToSlice (some (computeDistinct kvs)) = kvs ∧
+    ∀ i : Nat, setGet (some (computeDistinct kvs)) (Int.ofNat i) = kvs[i]? := by
+  rw [computeDistinct_eq]
+  have hget : ∀ i : Nat, setGet (some (some ⟨kvs.length, kvs⟩)) (Int.ofNat i) = kvs[i]? := by
+    intro i
+    simp only [setGet]
+    by_cases h : i < kvs.length
+    · simp [h]
+    · simp [h]
+  refine ⟨rfl, ?_, hget⟩
+  simp only [setToSlice, setLen, hget]
+  rw [filterMap_range_take, List.take_length]
+
+/-- **a nil `*Set`, the zero `Set{}` and `NewSet()` are the same empty Set** for every accessor and
+for `Equals`/`Equivalent` (all three pairwise, and with `EmptySet()`). -/
+theorem nil_zero_empty_sets (l o : SetP) (hl : l = none ∨ l = some none ∨ l = some (computeDistinct []))
+    (ho : o = none ∨ o = some none ∨ o = some (computeDistinct [])) (idx : Int) :
+    setLen l = 0 ∧ setToSlice l = [] ∧ setGet l idx = none ∧ setEquivalent l = emptyDistinct ∧
+    setEquals l o = true := by
+  have hc : computeDistinct [] = some ⟨0, []⟩ := computeDistinct_eq []
+  rcases hl with rfl | rfl | rfl <;> rcases ho with rfl | rfl | rfl <;>
+    simp [hc, setLen, setToSlice, setGet, setEquivalent, emptyDistinct, setEquals, distinctEq, relList] <;> omega
+
+/-- **key filters** (`NewAllowKeysFilter` / `NewDenyKeysFilter`, incl. their empty-list branches): on every Set
+the allow-filter keeps exactly the attributes whose key is listed, the deny-filter exactly the
+others, and the two kept Sets together are the original (no attribute lost, none in both). -/
+theorem allow_deny_partition (s : List KV) (keys : List Bytes) :
+    (setFilter s (some (allowKeysFilter keys))).1 = s.filter (fun kv => keys.contains kv.key) ∧
+    (setFilter s (some (denyKeysFilter keys))).1 = s.filter (fun kv => !keys.contains kv.key) ∧
+    ((setFilter s (some (allowKeysFilter keys))).1 ++ (setFilter s (some (denyKeysFilter keys))).1).Perm s ∧
+    (setFilter s (some (allowKeysFilter keys))).2.Perm (setFilter s (some (denyKeysFilter keys))).1 := by
+  have ha := filter_partition s (some (allowKeysFilter keys))
+  have hd := filter_partition s (some (denyKeysFilter keys))
+  simp only [filterOK, keepOf, Option.getD_some, Bool.and_eq_true, beq_iff_eq, List.isPerm_iff] at ha hd
+  have ea : allowKeysFilter keys = fun kv => keys.contains kv.key := by
+    unfold allowKeysFilter
+    split
+    · have : keys = [] := List.eq_nil_of_length_eq_zero (by omega)
+      subst this; funext kv; simp
+    · rfl
+  have ed : denyKeysFilter keys = fun kv => !keys.contains kv.key := by
+    unfold denyKeysFilter
+    split
+    · have : keys = [] := List.eq_nil_of_length_eq_zero (by omega)
+      subst this; funext kv; simp
+    · rfl
+  rw [ea] at ha
+  rw [ed] at hd
+  rw [ea, ed]
+  refine ⟨ha.1.1.1, hd.1.1.1, ?_, ?_⟩
+  · rw [ha.1.1.1, hd.1.1.1]
+    exact List.perm_append_comm.trans (filter_append_perm' (fun kv => keys.contains kv.key) s)
+  · rw [hd.1.1.1]; exact ha.1.1.2
+
+/-- **the default encoder's escaping, exactly**: `copyAndEscape` is bytewise backslash-escaping of `=` `,` `\`
+applied to the string with every invalid UTF-8 byte replaced by U+FFFD (`sanitize`); on valid
+UTF-8 it is bytewise escaping of the string itself; un-escaping gives the sanitized string back. -/
+theorem escape_is_bytewise (s : Bytes) :
+    escape s = escB (sanitize s) ∧ (Utf8.validString s = true → escape s = escB s) ∧
+    unescB (escape s) = sanitize s := by
+  refine ⟨escape_eq_escB_sanitize s, fun h => ?_, ?_⟩
+  · rw [escape_eq_escB_sanitize, sanitize_of_valid h]
+  · rw [escape_eq_escB_sanitize, unescB_escB]
+
+/-- **escaping is injective up to exactly the invalid bytes**: two strings escape to the same bytes iff
+they are equal after replacing invalid bytes by U+FFFD; so on valid UTF-8 escaping is injective
+(the failure set is the one of `encode_not_injective_witness`, nothing else). -/
+theorem escape_injective_iff (s t : Bytes) :
+    (escape s = escape t ↔ sanitize s = sanitize t) ∧
+    (Utf8.validString s = true → Utf8.validString t = true → escape s = escape t → s = t) := by
+  have h1 : escape s = escape t ↔ sanitize s = sanitize t := by
+    rw [escape_eq_escB_sanitize, escape_eq_escB_sanitize]
+    exact ⟨escB_injective, fun e => by rw [e]⟩
+  refine ⟨h1, fun hs ht e => ?_⟩
+  have := h1.mp e
+  rwa [sanitize_of_valid hs, sanitize_of_valid ht] at this
+
+/-- the sanitized key and (STRING) value of an attribute -/
+def sanPair (kv : KV) : Bytes × Bytes :=
+  (sanitize kv.key, match kv.val with | .str v => sanitize v | _ => [])
+
+private theorem encode_strings (emit : Value → Bytes) (a : List KV) (ha : ∀ x ∈ a, ∃ v, x.val = .str v) :
+    encode emit a = encPairs (a.map sanPair) := by
+  rw [encode_is_join, encodeRef, encPairs, List.map_map]
+  congr 2
+  apply List.map_congr_left
+  intro x hx
+  obtain ⟨v, hv⟩ := ha x hx
+  simp only [encodeItem, hv, Function.comp, sanPair, escape_eq_escB_sanitize]
+
+/-- **the encoding determines a Set of STRING attributes up to invalid bytes** (and determines it
+outright when keys and values are valid UTF-8): the escaped `key=value` items joined by `,` parse
+back uniquely, because every `=` `,` `\` inside a key or value carries a backslash. Non-STRING
+values are emitted unescaped (corpus witnesses), so the statement is about STRING-valued Sets. -/
+theorem encode_injective_on_string_sets (emit : Value → Bytes) (a b : List KV)
+    (ha : ∀ x ∈ a, ∃ v, x.val = .str v) (hb : ∀ x ∈ b, ∃ v, x.val = .str v) :
+    encode emit a = encode emit b ↔ a.map sanPair = b.map sanPair := by
+  rw [encode_strings emit a ha, encode_strings emit b hb]
+  exact ⟨encPairs_injective _ _, fun e => by rw [e]⟩
+
+private theorem sanPair_valid_inj {x y : KV} (hx : ∃ v, x.val = .str v) (hy : ∃ v, y.val = .str v)
+    (vx : Utf8.validString x.key = true ∧ ∀ v, x.val = .str v → Utf8.validString v = true)
+    (vy : Utf8.validString y.key = true ∧ ∀ v, y.val = .str v → Utf8.validString v = true)
+    (h : sanPair x = sanPair y) : x = y := by
+  obtain ⟨v, hv⟩ := hx
+  obtain ⟨w, hw⟩ := hy
+  obtain ⟨xk, xv⟩ := x
+  obtain ⟨yk, yv⟩ := y
+  simp only at hv hw vx vy
+  subst hv hw
+  simp only [sanPair, Prod.mk.injEq] at h
+  rw [sanitize_of_valid vx.1, sanitize_of_valid vy.1, sanitize_of_valid (vx.2 v rfl),
+    sanitize_of_valid (vy.2 w rfl)] at h
+  rw [h.1, h.2]
+
+theorem encode_injective_valid_utf8 (emit : Value → Bytes) (a b : List KV)
+    (ha : ∀ x ∈ a, ∃ v, x.val = .str v) (hb : ∀ x ∈ b, ∃ v, x.val = .str v)
+    (va : ∀ x ∈ a, Utf8.validString x.key = true ∧ ∀ v, x.val = .str v → Utf8.validString v = true)
+    (vb : ∀ x ∈ b, Utf8.validString x.key = true ∧ ∀ v, x.val = .str v → Utf8.validString v = true)
+    (h : encode emit a = encode emit b) : a = b := by
+  have hm := (encode_injective_on_string_sets emit a b ha hb).mp h
+  clear h
+  induction a generalizing b with
+  | nil => cases b with
+    | nil => rfl
+    | cons y ys => simp at hm
+  | cons x xs ih =>
+    cases b with
+    | nil => simp at hm
+    | cons y ys =>
+      simp only [List.map_cons, List.cons.injEq] at hm
+      have e := sanPair_valid_inj (ha x (by simp)) (hb y (by simp)) (va x (by simp)) (vb y (by simp)) hm.1
+      rw [e, ih ys (fun z hz => ha z (by simp [hz])) (fun z hz => hb z (by simp [hz]))
+        (fun z hz => va z (by simp [hz])) (fun z hz => vb z (by simp [hz])) hm.2]
+
+/-- **`MergeIterator`, step by step**: the state machine of iterator.go (two `oneIterator`s with their
+`done` flags and look-ahead attributes, `Next` with its six cases) yields exactly the merged list the
+other theorems are about — for any two lists; for two Sets that is the sorted first-wins union. -/
+theorem mergeIterator_state_machine (a b : List KV) :
+    mergeIterSM a b = mergeIter a b ∧
+    (strictSorted a = true → strictSorted b = true → mergeOK a b (mergeIterSM a b) = true) := by
+  refine ⟨mergeIterSM_eq a b, fun ha hb => ?_⟩
+  rw [mergeIterSM_eq]; exact (merge_first_wins a b ha hb).1
+
+/-- **`Iterator`**: `for it.Next() { … it.Attribute() … }` on a fresh iterator visits exactly the contents
+in order and ends past the end (where `Attribute` is the zero KeyValue and `Next` stays false);
+`ToSlice` from any position returns the contents and leaves the iterator exhausted. -/
+theorem iterator_spec (s : List KV) (idx : Int) :
+    (Iter.drain (s.length + 1) { storage := s }).2 = s ∧
+    (Iter.drain (s.length + 1) { storage := s }).1.attribute = zeroKV ∧
+    ((Iter.drain (s.length + 1) { storage := s }).1.next).2 = false ∧
+    (Iter.toSlice { storage := s, idx := idx }).2 = s ∧
+    (s ≠ [] → ((Iter.toSlice { storage := s, idx := idx }).1.next).2 = false) := by
+  obtain ⟨d1, d2⟩ := iter_drain_spec (s.length + 1) { storage := s } 0 (by simp) (by simp) (by simp)
+  simp only at d1 d2
+  refine ⟨by simpa using d1, ?_, ?_, ?_, ?_⟩
+  · rw [d2]; simp [Iter.attribute]
+  · rw [d2]; simp only [Iter.next, decide_eq_false_iff_not]; omega
+  · unfold Iter.toSlice
+    by_cases h0 : s.length = 0
+    · have : s = [] := List.eq_nil_of_length_eq_zero h0
+      simp [this]
+    · obtain ⟨e1, _⟩ := iter_drain_spec (s.length + 1) { storage := s, idx := -1 } 0 (by simp) (by simp) (by simp)
+      simp only [h0, if_false]
+      simpa using e1
+  · intro hne
+    unfold Iter.toSlice
+    have h0 : ¬ s.length = 0 := fun e => hne (List.eq_nil_of_length_eq_zero e)
+    obtain ⟨_, e2⟩ := iter_drain_spec (s.length + 1) { storage := s, idx := -1 } 0 (by simp) (by simp) (by simp)
+    simp only [h0, if_false]
+    rw [e2]; simp only [Iter.next, decide_eq_false_iff_not]; omega
+
 /-! ### non-vacuity: concrete, non-trivial instances evaluated by the kernel -/
 
 /-- duplicates, unsorted input, a filter that drops a winner: set, dropped, caller's slice -/
@@ -433,5 +744,24 @@ example : ∃ a b : List KV, a ≠ b ∧ ∀ k, lookupLast a k = lookupLast b k 
     · by_cases h2 : [2] = k
       · subst h2; decide
       · simp [lookupLast, lookup, h1, h2]⟩
+
+/-- 25 elements: the blocks-and-merge path of `SortStableFunc`; equal keys keep their input order -/
+example : goSortStable ((List.range 25).map (fun i => (⟨[UInt8.ofNat (24 - i) / 2], .int (UInt64.ofNat i)⟩ : KV))) =
+    sortStable ((List.range 25).map (fun i => (⟨[UInt8.ofNat (24 - i) / 2], .int (UInt64.ofNat i)⟩ : KV))) := by decide
+example : goInsertionSort [⟨[2], .int 1⟩, ⟨[1], .int 2⟩, ⟨[2], .int 3⟩, ⟨[1], .int 4⟩] =
+    [⟨[1], .int 2⟩, ⟨[1], .int 4⟩, ⟨[2], .int 1⟩, ⟨[2], .int 3⟩] := by decide
+/-- `-0`/`+0` inside a float slice are identified, NaN excludes -/
+example : equal [⟨[0x6b], .floats [0x8000000000000000, 1]⟩] [⟨[0x6b], .floats [0, 1]⟩] = true ∧
+    [(⟨[0x6b], .floats [0x8000000000000000, 1]⟩ : KV)].map normKV = [(⟨[0x6b], .floats [0, 1]⟩ : KV)].map normKV := by decide
+example : setEquals none (some (computeDistinct [])) = true ∧
+    setEquals (some (computeDistinct [⟨[1], .int 1⟩])) (some none) = false := by decide
+
+/-- `k=,` ↦ `k\=\,` ; an invalid byte is sanitized to U+FFFD -/
+example : escape [0x6b, 0x3d, 0x2c] = [0x6b, 0x5c, 0x3d, 0x5c, 0x2c] ∧ unescB (escape [0x6b, 0x3d, 0x2c]) = [0x6b, 0x3d, 0x2c] ∧
+    sanitize [0x61, 0xff] = [0x61, 0xEF, 0xBF, 0xBD] ∧ Utf8.validString [0x6b, 0xC5, 0xA1] = true := by decide
+
+/-- the merge state machine on the empty key and an INVALID value (the seeded sentinel shape) -/
+example : mergeIterSM [⟨[], .int 1⟩, ⟨[0x62], .invalid⟩] [⟨[0x61], .bool true⟩, ⟨[0x62], .int 2⟩] =
+    [⟨[], .int 1⟩, ⟨[0x61], .bool true⟩, ⟨[0x62], .invalid⟩] := by decide
 
 end Otel.C05
